@@ -22,3 +22,99 @@ package client
 //@   nopanic [C27]
 //@   ensures [C27] sound: result ==> (exists e int :: matchEnd(route, topic, e))
 //@   ensures [C27] complete: forall e int :: matchEnd(route, topic, e) ==> result
+
+// ---- ghost state of a client: trace of MQTT-SN packets handed to the connection, in order ----
+//@ ghost Client.wireN int
+//@ ghost Client.wire map[int]iface
+
+// What every step of the client relies on (established by NewClient + Dial, kept by every step).
+//@ pred cLite(c *Client) = c != nil && c.cfg != nil && c.conn != nil && c.transactions != nil && storeInv(c.transactions) &&
+//@      c.registeredTopics != nil && c.messageHandlers != nil && c.state != nil && c.cancel != nil && c.msgID != nil
+
+// ---- sending (C17, C23, C25) ----
+//@ func (*Client).send
+//@   nopanic [C25]
+//@   requires [C25] conn: c != nil && c.conn != nil
+//@   requires [C23] wf: wfFromClient(pkt)
+//@   deadreturn 0 Pack never returns an error
+//@   assigns c.wireN, c.wire,
+//@      pkt.(*pkts1.GwInfo).Header.pktLength, pkt.(*pkts1.Connect).Header.pktLength, pkt.(*pkts1.WillMsg).Header.pktLength,
+//@      pkt.(*pkts1.Register).Header.pktLength, pkt.(*pkts1.Publish).Header.pktLength, pkt.(*pkts1.Pingreq).Header.pktLength,
+//@      pkt.(*pkts1.WillMsgUpd).Header.pktLength, pkt.(*pkts1.Auth).Header.pktLength, pkt.(*pkts1.WillTopic).Header.pktLength,
+//@      pkt.(*pkts1.WillTopicUpd).Header.pktLength, pkt.(*pkts1.Subscribe).Header.pktLength, pkt.(*pkts1.Unsubscribe).Header.pktLength,
+//@      pkt.(*pkts1.Disconnect).Header.pktLength
+//@   at Write.0 before assert [C23] datagram_wf: lenFieldOK(arg(1)) && len(arg(1)) <= 8192 && arg(1)[hdrOnWire(arg(1)) - 1] == wireType(pkt)
+//@   at Write.0 before ghost c.wire = upd(c.wire, c.wireN, pkt)
+//@   at Write.0 before ghost c.wireN = c.wireN + 1
+//@   ensures [C17] at_most_one: c.wireN == old(c.wireN) || c.wireN == old(c.wireN) + 1
+//@   ensures [C17] sent_on_success: result == nil ==> c.wireN == old(c.wireN) + 1
+//@   ensures [C17] what: c.wireN == old(c.wireN) + 1 ==> c.wire[old(c.wireN)] == pkt
+//@   ensures [C17] prefix: forall i int :: i != old(c.wireN) ==> c.wire[i] == old(c.wire[i])
+
+// ---- resolving the topic of a PUBLISH from the gateway (C27, C32) ----
+//@ func findTopic
+//@   nopanic [C25]
+//@   ensures [C32] found_is_entry: result1 ==> (result0 in m) && m[result0] == topicID
+//@   ensures [C32] none: !result1 ==> len(result0) == 0
+
+//@ func (*Client).topicForPublish
+//@   nopanic [C25]
+//@   requires [C25] wf: c != nil && c.cfg != nil && pkt != nil
+//@   guarded [C29] registeredTopicsLock: registeredTopics
+//@   ensures [C32] registered: result1 == nil && pkt.TopicIDType == 0 ==> (result0 in c.registeredTopics) && c.registeredTopics[result0] == pkt.TopicID
+//@   ensures [C32] predefined: result1 == nil && pkt.TopicIDType == 1 ==> nameDefined(c.cfg.PredefinedTopics, c.cfg.ClientID, pkt.TopicID) &&
+//@      result0 == nameSpec(c.cfg.PredefinedTopics, c.cfg.ClientID, pkt.TopicID)
+//@   ensures [C32] short: result1 == nil && pkt.TopicIDType == 2 ==> len(result0) == 2 && result0[0] == uint8(pkt.TopicID >> 8) && result0[1] == uint8(pkt.TopicID)
+//@   ensures [C32] reserved_type_refused: pkt.TopicIDType > 2 ==> result1 != nil
+//@   ensures [C32] unknown_refused: pkt.TopicIDType == 1 && !nameDefined(c.cfg.PredefinedTopics, c.cfg.ClientID, pkt.TopicID) ==> result1 != nil
+
+// ---- C27: subscriptions and dispatch ----
+// A subscription is an entry of messageHandlers.handlers: key = the filter as given (its levels joined with '/'),
+// value = the filter's levels and the callback. matches = MQTT matching (matchEnd above) for some end position.
+//@ inline join
+// split: the levels of a topic name (strings.Split is trusted to cut at every '/': A-STRSPLIT)
+//@ func split
+//@   nopanic [C25]
+//@   ensures [C27] levels_of_the_topic: len(result) >= 1 && strJoin(result, "/") == topic
+//@ spec matches(F []string, T []string) bool = exists e int :: matchEnd(F, T, e)
+//@ pred handlersWF(m *messageHandlers) = forall k iface :: (k in m.handlers) ==> istype(k, string) && istype(smGet(m.handlers, k), *messageHandler) &&
+//@      smGet(m.handlers, k).(*messageHandler) != nil
+
+//@ func (*messageHandlers).store
+//@   nopanic [C25]
+//@   requires [C25] wf: mhs != nil && handlersWF(mhs)
+//@   assigns mhs.handlers
+//@   ensures [C25] keeps: handlersWF(mhs)
+//@   ensures [C27] stored_under_its_filter: (box(string, strJoin(route, "/")) in mhs.handlers) &&
+//@      sameSlice(smGet(mhs.handlers, box(string, strJoin(route, "/"))).(*messageHandler).route, route) &&
+//@      smGet(mhs.handlers, box(string, strJoin(route, "/"))).(*messageHandler).callback == callback
+//@   ensures [C27] others_untouched: forall k iface :: k != box(string, strJoin(route, "/")) ==>
+//@      (k in mhs.handlers) == old(k in mhs.handlers) && smGet(mhs.handlers, k) == old(smGet(mhs.handlers, k))
+
+//@ func (*messageHandlers).delete
+//@   nopanic [C25]
+//@   requires [C25] wf: mhs != nil && handlersWF(mhs)
+//@   assigns mhs.handlers
+//@   ensures [C25] keeps: handlersWF(mhs)
+//@   ensures [C27] filter_removed: !(box(string, strJoin(route, "/")) in mhs.handlers)
+//@   ensures [C27] others_untouched: forall k iface :: k != box(string, strJoin(route, "/")) ==>
+//@      (k in mhs.handlers) == old(k in mhs.handlers) && smGet(mhs.handlers, k) == old(smGet(mhs.handlers, k))
+
+// Range closure of handle: inRange(k, v) = (k, v) is a subscription of the map being ranged over.
+//@ func (*messageHandlers).handle$1
+//@   nopanic [C25]
+//@   requires [C25] entry: inRange(key, value)
+//@   requires [C25] types: istype(value, *messageHandler) && value.(*messageHandler) != nil
+//@   assigns callback
+//@   invariant [C27] hit_matches: callback != nil ==> (exists k iface, v iface :: inRange(k, v) && istype(v, *messageHandler) &&
+//@      v.(*messageHandler).callback == callback && matches(v.(*messageHandler).route, route))
+
+//@ func (*messageHandlers).handle
+//@   nopanic [C25]
+//@   requires [C25] wf: mhs != nil && handlersWF(mhs)
+//@   at split.0 after let levels = ret
+//@   assigns anycalls()
+//@   ensures [C27] at_most_one_callback: forall f MessageHandlerFunc :: calls(f) == old(calls(f)) || calls(f) == old(calls(f)) + 1
+//@   ensures [C27] only_a_matching_subscription: forall f MessageHandlerFunc :: calls(f) != old(calls(f)) ==>
+//@      (exists k iface :: (k in mhs.handlers) && smGet(mhs.handlers, k).(*messageHandler).callback == f &&
+//@         matches(smGet(mhs.handlers, k).(*messageHandler).route, levels))
